@@ -1,5 +1,5 @@
 """harness sets for the spline part of C01 / C02 / C09 / C17 (+ wrappers for C12 / C13)"""
-from contracts.splines import FAMILIES, spline_harness, unconstrained_harness
+from contracts.splines import FAMILIES, spline_harness, unconstrained_harness, cdf_harnesses
 
 NOT_DECIDED_CUBIC_INVERSE = ("cubic_spline(inverse=True): the trigonometric three-root branch (atan2/cos/sin + argsort root selection) is outside "
                              "nonlinear real arithmetic; the cubic inverse is not under contract")
@@ -28,4 +28,6 @@ def spline_harnesses(props, tier, wrappers=True, directions=(False, True)):
             for K in ((2, 3) if tier == "quick" else (2, 3, 5)):
                 for inv in directions:
                     hs.append(unconstrained_harness(name, K, inv, props))
+    if wrappers:
+        hs += cdf_harnesses(props, tier, directions)
     return hs
